@@ -48,8 +48,11 @@ fn apply(g: &mut dyn DynGen, op: &Op) -> Result<Option<Out>, SutFail> {
 }
 
 fn fmt_of(x: u64) -> SnapFmt {
-    match x % 8 {
+    match x % 11 {
         7 => SnapFmt::Toml,
+        8 => SnapFmt::JsonFlatten,
+        9 => SnapFmt::JsonTagged,
+        10 => SnapFmt::JsonUntagged,
         0 => SnapFmt::Bincode,
         1 => SnapFmt::Json,
         2 => SnapFmt::BincodeFramed,
@@ -57,6 +60,15 @@ fn fmt_of(x: u64) -> SnapFmt {
         4 => SnapFmt::BincodeReader,
         5 => SnapFmt::JsonReader,
         _ => SnapFmt::JsonValue,
+    }
+}
+
+/// the formats that buffer the whole document (flatten / tagged / untagged) cost ten times more: drawn less often
+fn pick_fmt(rng: &mut Prng) -> u64 {
+    if rng.chance(1, 9) {
+        8 + rng.below(3)
+    } else {
+        rng.below(8)
     }
 }
 
@@ -104,7 +116,7 @@ impl Scenario for C11 {
             let kind = if rng.chance(1, 2) { Kind::Isaac } else { Kind::Isaac64 };
             spec.kind = Some(kind);
             spec.seed = Some(gen_seed(rng, kind));
-            spec.aux = vec![rng.below(8)];
+            spec.aux = vec![pick_fmt(rng)];
             return spec;
         }
         spec.variant = "history".into();
@@ -126,11 +138,11 @@ impl Scenario for C11 {
         // copy (so later crash points are restores of restores)
         for _ in 0..rng.below(4) {
             let at = rng.below(ops.len() as u64 + 1) as usize;
-            ops.insert(at, Op::Snap(fmt_of(rng.below(8))));
+            ops.insert(at, Op::Snap(fmt_of(pick_fmt(rng))));
         }
         spec.ops = ops;
         // aux[0]: format used at the enumerated (non-destructive) crash points
-        spec.aux = vec![rng.below(8)];
+        spec.aux = vec![pick_fmt(rng)];
         if matches!(kind, Kind::Isaac | Kind::Isaac64) && rng.chance(1, 6) {
             // aux[1] = u64::MAX: all crash points; aux[2] = 1 + k: word k of the durable state is zero
             spec.aux.push(u64::MAX);
